@@ -257,6 +257,14 @@ func w9CComp(codec string, chunks [][]byte) string {
 			stored = append(stored, chunks[i])
 		}
 	}
+	return w9CCompStored(codec, stored)
+}
+
+// w9CCompStored: the compressor table from the stored blocks themselves.
+func w9CCompStored(codec string, stored [][]byte) string {
+	if codec == "null" {
+		return "CNull"
+	}
 	type pr struct{ payload, raw []byte }
 	var pairs []pr
 	seen := map[string]bool{}
@@ -724,6 +732,7 @@ func runC09(r *Run) {
 	c09Huge(r)
 	c09TwoEncoders(r)
 	c09FileWriterDirect(r, false)
+	c09FileWriterInterleaved(r)
 	seen := map[string]bool{}
 	for _, h := range hs {
 		k := h.key()
